@@ -8,11 +8,15 @@
 //! carries the latest full fetch (if any since the last take), with the latest
 //! peer list fetched after it (or the latest partial peer list if no full fetch
 //! is pending), every refresh responder merged since the last take exactly
-//! once, and for every address the latest hint.
+//! once, and for every address the latest hint. Client routes: a full fetch carries
+//! the whole snapshot (if the feature is configured), a partial client-routes fetch a
+//! set of per-(host, connection) entries "route is now X" / "route is gone"; the value
+//! taken carries the snapshot of the latest full fetch with every later entry applied,
+//! or - without a pending full fetch - for every (host, connection) the latest entry.
 
 use crate::case::{Ctx, Stop};
 use crate::rng::Fnv;
-use scylla::verif::{VerifChanges, VerifRefreshReceiver, VerifUpdateSlot};
+use scylla::verif::{VerifChanges, VerifRefreshReceiver, VerifRoutes, VerifUpdateSlot};
 use serde_json::json;
 use std::collections::BTreeMap;
 use std::net::SocketAddr;
@@ -30,9 +34,18 @@ enum ModelChanges {
     },
 }
 
+#[derive(Default, Clone, Debug, PartialEq)]
+enum ModelRoutes {
+    #[default]
+    None,
+    Full(BTreeMap<(u8, u8), u16>),
+    Partial(BTreeMap<(u8, u8), Option<u16>>),
+}
+
 #[derive(Default)]
 struct Model {
     changes: ModelChanges,
+    routes: ModelRoutes,
     hints: BTreeMap<SocketAddr, bool>,
     /// Receivers of the responders merged since the last take (request number).
     responders: Vec<(u64, VerifRefreshReceiver)>,
@@ -51,6 +64,7 @@ pub fn run(ctx: &mut Ctx) -> Result<(), Stop> {
     let mut next_meta = 1u64;
     let mut next_peers = 1000u64;
     let mut next_req = 1u64;
+    let mut next_route = 0u16;
     let mut merges = 0u64;
     let mut takes = 0u64;
     let mut merged_into_pending = 0u64;
@@ -58,7 +72,7 @@ pub fn run(ctx: &mut Ctx) -> Result<(), Stop> {
         if ctx.tape.exhausted() {
             break;
         }
-        let op = ctx.weighted("c19u.op", &[5, 4, 4, 5]);
+        let op = ctx.weighted("c19u.op", &[5, 4, 4, 5, 4]);
         hash.u64(op as u64);
         match op {
             0 => {
@@ -72,7 +86,27 @@ pub fn run(ctx: &mut Ctx) -> Result<(), Stop> {
                     merged_into_pending += 1;
                     ctx.fault("merged_into_pending_update");
                 }
-                let rx = slot.merge_full(m, p, with_responder);
+                // 2 in 3 fetch results carry a client-routes snapshot (feature configured).
+                let snapshot: Option<Vec<(u8, u8, u16)>> = if ctx.chance("c19u.routes_configured", 2, 3) {
+                    let n = ctx.choose("c19u.snapshot_len", 5);
+                    let mut v: BTreeMap<(u8, u8), u16> = BTreeMap::new();
+                    for _ in 0..n {
+                        let k = (ctx.choose("c19u.route_host", 3) as u8, ctx.choose("c19u.route_conn", 2) as u8);
+                        next_route += 1;
+                        v.insert(k, next_route);
+                    }
+                    Some(v.into_iter().map(|((h, c), t)| (h, c, t)).collect())
+                } else {
+                    None
+                };
+                hash.u64(snapshot.as_ref().map(|s| s.len() as u64 + 1).unwrap_or(0));
+                ctx.trace(|| format!("          client routes in it: {snapshot:?}"));
+                let rx = slot.merge_full_with_routes(m, p, with_responder, snapshot.as_deref());
+                // A full fetch subsumes every partial result pending so far.
+                model.routes = match snapshot {
+                    Some(s) => ModelRoutes::Full(s.into_iter().map(|(h, c, t)| ((h, c), t)).collect()),
+                    None => ModelRoutes::None,
+                };
                 if let Some(rx) = rx {
                     model.responders.push((next_req, rx));
                     next_req += 1;
@@ -117,6 +151,61 @@ pub fn run(ctx: &mut Ctx) -> Result<(), Stop> {
                 }
                 slot.hint(a, up);
                 model.hints.insert(a, up);
+                model.touched = true;
+                merges += 1;
+            }
+            4 => {
+                // A partial client-routes fetch result: 1..3 entries.
+                let n = 1 + ctx.choose("c19u.entries", 3);
+                let mut entries: BTreeMap<(u8, u8), Option<u16>> = BTreeMap::new();
+                for _ in 0..n {
+                    let k = (ctx.choose("c19u.route_host", 3) as u8, ctx.choose("c19u.route_conn", 2) as u8);
+                    let v = if ctx.chance("c19u.route_removed", 1, 3) {
+                        None
+                    } else {
+                        next_route += 1;
+                        Some(next_route)
+                    };
+                    entries.insert(k, v);
+                }
+                let entries: Vec<(u8, u8, Option<u16>)> = entries.into_iter().map(|((h, c), t)| (h, c, t)).collect();
+                hash.u64(entries.len() as u64);
+                ctx.trace(|| format!("producer: merge partial client routes {entries:?}"));
+                if model.touched {
+                    merged_into_pending += 1;
+                    ctx.fault("merged_into_pending_update");
+                }
+                slot.merge_client_routes(&entries);
+                match (&model.changes, &mut model.routes) {
+                    (ModelChanges::Full { .. }, ModelRoutes::Full(all)) => {
+                        ctx.probe("client_routes_merged_into_pending_full");
+                        for (h, c, t) in &entries {
+                            match t {
+                                Some(t) => {
+                                    all.insert((*h, *c), *t);
+                                }
+                                None => {
+                                    all.remove(&(*h, *c));
+                                }
+                            }
+                        }
+                    }
+                    // Client routes are not configured (the full fetch carried none): the
+                    // update is meaningless and dropped.
+                    (ModelChanges::Full { .. }, _) => {}
+                    (_, ModelRoutes::Partial(pending)) => {
+                        ctx.probe("client_routes_merged_into_pending_partial");
+                        for (h, c, t) in &entries {
+                            pending.insert((*h, *c), *t);
+                        }
+                    }
+                    (_, r) => {
+                        *r = ModelRoutes::Partial(entries.iter().map(|(h, c, t)| ((*h, *c), *t)).collect());
+                        if model.changes == ModelChanges::None {
+                            model.changes = ModelChanges::Partial { peers_id: None };
+                        }
+                    }
+                }
                 model.touched = true;
                 merges += 1;
             }
@@ -171,6 +260,17 @@ fn check_take(ctx: &mut Ctx, slot: &mut VerifUpdateSlot, model: &mut Model) -> R
                 return ctx.fail(
                     "c19.payload_lost",
                     format!("the consumer received {got:?} but the fetch results merged in since the last take amount to {:?}", m.changes),
+                );
+            }
+            let got_routes = match t.routes {
+                VerifRoutes::None => ModelRoutes::None,
+                VerifRoutes::Full(v) => ModelRoutes::Full(v.into_iter().map(|(h, c, t)| ((h, c), t)).collect()),
+                VerifRoutes::Partial(v) => ModelRoutes::Partial(v.into_iter().map(|(h, c, t)| ((h, c), t)).collect()),
+            };
+            if got_routes != m.routes {
+                return ctx.fail(
+                    "c19.payload_lost",
+                    format!("the consumer received the client routes {got_routes:?} but the fetch results merged in since the last take amount to {:?}", m.routes),
                 );
             }
             let want_hints: Vec<(SocketAddr, bool)> = m.hints.iter().map(|(a, u)| (*a, *u)).collect();
